@@ -773,7 +773,12 @@ class _FakeResourceBase:
     @staticmethod
     def setrlimit(res, lim):
         if not _PREEXEC_TARGET:
-            raise HarnessError('setrlimit outside a child process')
+            # the calling ddSMT process limits itself (children started later
+            # inherit the limit): recorded, judged by the oracle of C10
+            import resource as _r
+            name = {_r.RLIMIT_CPU: 'cpu', _r.RLIMIT_AS: 'as'}.get(res, str(res))
+            CTX.rec.count('self_limit.' + name)
+            return
         _FakeResourceBase._apply(_PREEXEC_TARGET[-1], res, lim)
 
     @staticmethod
